@@ -3,7 +3,7 @@ from __future__ import print_function
 import re
 import sys
 from bisect import insort
-from ast import iter_fields, Store, Load, NodeVisitor, parse, Tuple, List, AST
+from ast import iter_fields, iter_child_nodes, Store, Load, NodeVisitor, parse, Tuple, List, AST
 
 try:
     from ast import Starred
@@ -376,7 +376,19 @@ class Source(object):
     @cached_property
     def tree(self):
         # type: () -> AST
-        return parse(self.source, self.filename)
+        tree = parse(self.source, self.filename)
+        # the visitors recurse a few frames per level of the tree: a long
+        # chain of operators or elif branches that the parser accepts must
+        # not exhaust the recursion limit of the analysis
+        depth = 0
+        level = [tree]
+        while level:
+            depth += 1
+            level = [c for n in level for c in iter_child_nodes(n)]
+        need = min(depth * 12 + 500, 60000)
+        if need > sys.getrecursionlimit():
+            sys.setrecursionlimit(need)
+        return tree
 
     @cached_property
     def lines(self):
